@@ -328,6 +328,34 @@ def state_key(sys_):
     return h.hexdigest()
 
 
+def complex_replay(prog, build, seed, stats, res):
+    """one replay with COMPLEX data of the same shape (ndarray and Taylor polynomial): outside the state graph (history depth 1)"""
+    for ckind in ('cnd', 'c21'):
+        xr = make_input('nd' if ckind == 'cnd' else 'u22', 1, seed)
+        if ckind == 'cnd':
+            xin = xr + 1j * np.array(PR.POINTS[2], dtype=float) * 0.25
+        else:
+            xin = UTPM(xr.data[:, :1] + 1j * 0.25 * make_input('u22', 0, seed + 1).data[:, :1])
+        try:
+            ref, _ = PR.run(prog, UTPM(xin.data.copy()) if isinstance(xin, UTPM) else xin.copy())
+        except Exception:
+            continue
+        pr = plain(ref)
+        if isinstance(pr, tuple) or pr is None or not np.all(np.isfinite(np.asarray(pr))):
+            continue
+        try:
+            s = build()
+            obs = s.cg.function([UTPM(xin.data.copy()) if isinstance(xin, UTPM) else xin.copy()])[0]
+        except Exception as e:
+            Function.cgraph = None
+            res.violations.append(([], (ckind, 1), {'kind': 'replay-raises', 'error': AD.last_line(e)}))
+            continue
+        res.transitions += 1
+        if not same(obs, ref, stats):
+            res.violations.append(([], (ckind, 1), {'kind': 'replay-differs-from-program', 'got': 'complex replay', 'expected': 'direct execution on the same complex data'}))
+    Function.cgraph = None
+
+
 def explore_program(prog, reckind, tier, seed, only_history=None):
     stats = {}
     why = PR.in_domain(prog, PR.POINTS[:4])
@@ -396,6 +424,11 @@ def explore_program(prog, reckind, tier, seed, only_history=None):
                     'expected': (np.asarray(r).ravel()[:5].tolist() if not isinstance(r, tuple) else 'tuple')}
         return None
 
+    if only_history is not None and only_history and tuple(only_history[-1])[0] in ('cnd', 'c21'):
+        res = EX.Result()
+        complex_replay(prog, build, seed, stats, res)
+        res.violations = [v for v in res.violations if v[1][0] == tuple(only_history[-1])[0]]
+        return res, {'rfails': rfails}, stats
     if only_history is not None:
         res = EX.Result()
         s = build()
@@ -415,6 +448,8 @@ def explore_program(prog, reckind, tier, seed, only_history=None):
         return res, {'rfails': rfails}, stats
     res = EX.bfs(build, enabled, step, state_key, DEPTH[tier], check)
     Function.cgraph = None
+    if not split and len(res.violations) == 0:
+        complex_replay(prog, build, seed, stats, res)
     return res, {'rfails': rfails}, stats
 
 
